@@ -118,6 +118,14 @@ def plan(tier, seed):
     ops = [L[n] for n in ["E_spd13", "E_tri25", "E_herm14", "G_dg14", "G_I2", "G_sc2", "E_rot", "E_spd19"]]
     runs = [dict(seeds=seeds, operands=seeds, small=ops[:2], acts=ACTS, lvl=1, dim=9, ebound=200,
                  invariants=("Emit", "ShapeConsistent", "SpecInv"))]
+    # spectral shifts B + c I (a Sum with a scalar operator, in both orders): the selection by magnitude is made on the
+    # shifted spectrum
+    shifts = [L[n] for n in ["G_sc2", "G_scn", "G_sc3h"]] + [catalog.scalarmul(catalog.q(-5, 0, 2), 3, "f64"),
+                                                              catalog.scalarmul(catalog.q(-5, 0, 2), 2, "f64")]
+    runs.append(dict(seeds=[L[n] for n in ["G_dgneg", "G_dg419", "E_spd241", "E_gen124", "T_up", "E_ind", "E_indneg",
+                                           "G_dgn", "E_spd13"]] + shifts,
+                     operands=shifts + [L["G_dgneg"], L["E_ind"], L["E_gen124"]], small=ops[:2], acts={"Sum", "spectral"},
+                     lvl=1, dim=4, ebound=400, invariants=("Emit", "ShapeConsistent", "SpecInv")))
     # three Kronecker factors whose eigenvalue arguments add up to more than pi (principal branch of the whole)
     runs.append(dict(seeds=[L["E_rot12"], L["E_rot"]], operands=[L["E_rot12"]], small=ops[:2], acts={"Kronecker", "spectral"},
                      lvl=2, dim=8, ebound=2000, invariants=("Emit", "ShapeConsistent", "SpecInv")))
